@@ -26,6 +26,8 @@ RULE = (
     "H: random values in the same domains; rejection: every single-character deletion/duplication/"
     "insertion mutant of valid encodings that leaves the xsd lexical form must raise. "
     "Non-trivial = lattice boundary value or a mutant outside the lexical form; distinct by (kind, repr)."
+    ' Also duration strings with fractional seconds (either sign), non-normalised and zero forms decoded against the indepe'
+    'ndent model; Unit built from bare numeric strings with varying unit arguments.'
 )
 ASSUMPTIONS = [
     "Python datetime/timedelta/Decimal arithmetic and `re` are correct",
